@@ -5,7 +5,7 @@ CONSTANTS
   MaxP = 9
   MaxM = 1
   AllowArm = FALSE
-  Families <- FamThorough
+  Families <- FamNestQuick
 SPECIFICATION SSpec
 INVARIANT Emit
 INVARIANT TypeOK
